@@ -1,5 +1,7 @@
 import SaVerif.Lemmas.Pratt
 import SaVerif.Lemmas.ExprCore
+import SaVerif.Lemmas.ExprBuild
+import SaVerif.Lemmas.ExprSem
 import SaVerif.Model.Expr
 import SaVerif.Model.ExprGrammar
 import SaVerif.Model.ExprEval
@@ -200,6 +202,130 @@ theorem core_postgresql (e : SaExpr) (hC : Core e = true) (hW : WG e = true) :
 theorem core_mysql (e : SaExpr) (hC : Core e = true) (hW : WG e = true) :
     parse mysql (render .mysql true e).print = some (render .mysql true e).norm :=
   core_render_read_back .mysql mysql coreCompat_mysql prefixNoTern_mysql e hC hW
+
+/-! ### from the API calls to the backend's reading
+
+`NumU` / `BoolU`: API-call trees over integer / numeric columns and literals with `+ - * %`,
+unary minus, the six comparisons, `is_` / `is_not`, comparison with `None`, `and_` / `or_` of any
+number of clauses (nested any way) and `~`.  `build` applies the transcribed constructors in
+Python's evaluation order. -/
+
+/-- `build` of a tree of the fragment is in the core fragment and well grouped -/
+theorem build_core_WG (u : U) (e : SaExpr) (hu : NumU u = true ∨ BoolU u = true)
+    (hb : build u = some e) : Core e = true ∧ WG e = true := by
+  rcases hu with h | h
+  · exact ⟨(build_num u e h hb).core, (build_num u e h hb).wg⟩
+  · exact ⟨(build_bool u e h hb).core, (build_bool u e h hb).wg⟩
+
+/-- **api_tree_read_back** — the end-to-end statement for the fragment: for EVERY API-call tree
+    `u` (any size, any nesting), every dialect's compiler and every grammar compatible with
+    the regenerated precedence table, the backend reads the emitted text back as the emitted
+    tree (up to re-association of `+ * AND OR` chains). -/
+theorem api_tree_read_back (d : Dialect) (g : Grammar) (hg : coreCompat g = true)
+    (hpt : prefixNoTern g) (u : U) (e : SaExpr) (hu : NumU u = true ∨ BoolU u = true)
+    (hb : build u = some e) :
+    parse g (render d true e).print = some (render d true e).norm :=
+  core_render_read_back d g hg hpt e (build_core_WG u e hu hb).1 (build_core_WG u e hu hb).2
+
+/-- **render_meaning_preserved** (fragment, end to end): the value the backend computes from the
+    emitted text is the value of the fully parenthesised rendering, for every row and every
+    interpretation of the operators in which parentheses are transparent and `+ * AND OR`
+    associative (three-valued logic included). -/
+theorem render_meaning_preserved {V : Type} (d : Dialect) (g : Grammar)
+    (hg : coreCompat g = true) (hpt : prefixNoTern g) (I : Interp V)
+    (hassoc : ∀ s, G.assocSym s = true → ∀ a b c, I.inf s (I.inf s a b) c = I.inf s a (I.inf s b c))
+    (hparen : ∀ v, I.br .paren v = v)
+    (u : U) (e : SaExpr) (hu : NumU u = true ∨ BoolU u = true) (hb : build u = some e) :
+    (parse g (render d true e).print).map (evalG I) = some (evalG I (render d true e).fullParen) :=
+  core_render_meaning_preserved d g hg hpt I hassoc hparen e
+    (build_core_WG u e hu hb).1 (build_core_WG u e hu hb).2
+
+theorem api_tree_read_back_sqlite (u : U) (e : SaExpr) (hu : NumU u = true ∨ BoolU u = true)
+    (hb : build u = some e) :
+    parse sqlite (render .sqlite true e).print = some (render .sqlite true e).norm :=
+  api_tree_read_back .sqlite sqlite coreCompat_sqlite prefixNoTern_sqlite u e hu hb
+
+theorem api_tree_read_back_postgresql (u : U) (e : SaExpr) (hu : NumU u = true ∨ BoolU u = true)
+    (hb : build u = some e) :
+    parse postgresql (render .postgresql true e).print = some (render .postgresql true e).norm :=
+  api_tree_read_back .postgresql postgresql coreCompat_postgresql prefixNoTern_postgresql u e hu hb
+
+theorem api_tree_read_back_mysql (u : U) (e : SaExpr) (hu : NumU u = true ∨ BoolU u = true)
+    (hb : build u = some e) :
+    parse mysql (render .mysql true e).print = some (render .mysql true e).norm :=
+  api_tree_read_back .mysql mysql coreCompat_mysql prefixNoTern_mysql u e hu hb
+
+/-- the standard three-valued interpretation satisfies the hypotheses of the value theorems -/
+theorem stdI_assoc (env : String → Val) :
+    ∀ s, G.assocSym s = true → ∀ a b c : SV,
+      (stdI env).inf s ((stdI env).inf s a b) c = (stdI env).inf s a ((stdI env).inf s b c) := by
+  intro s hs a b c
+  cases s <;> simp [G.assocSym] at hs
+  · show SV.s _ = SV.s _
+    congr 1
+    exact binVal_assoc .add rfl a.scalar b.scalar c.scalar
+  · show SV.s _ = SV.s _
+    congr 1
+    exact binVal_assoc .mul rfl a.scalar b.scalar c.scalar
+  · rfl
+  · show SV.s _ = SV.s _
+    congr 1
+    exact binVal_assoc .and_ rfl a.scalar b.scalar c.scalar
+  · show SV.s _ = SV.s _
+    congr 1
+    exact binVal_assoc .or_ rfl a.scalar b.scalar c.scalar
+
+/-- **api_tree_value_bool** — C01 end to end on the fragment, *including the semantic
+    rewrites*: for every boolean API-call tree `u` (no `is_`/`is_not` between two general
+    operands, see `negate_is_counterexample`), every dialect's compiler, every compatible
+    grammar and every row `env`: the three-valued value the backend computes from the emitted
+    text is the meaning of `u` — whatever grouping, flattening of `and_`/`or_`/`+`/`*`,
+    single-clause collapse and negation rewriting (`~(a < b)` ↦ `a >= b`, …) happened. -/
+theorem api_tree_value_bool (d : Dialect) (g : Grammar) (hg : coreCompat g = true)
+    (hpt : prefixNoTern g) (env : String → Val) (u : U) (e : SaExpr)
+    (hu : BoolU u = true) (hn : noIsGen u = true) (hb : build u = some e) :
+    (parse g (render d true e).print).map (fun t => truth (evalG (stdI env) t).scalar)
+      = some (evalBoolU env u) := by
+  have hcw := build_core_WG u e (Or.inr hu) hb
+  have h1 := backend_value_of_text g (stdI env) (stdI_assoc env) (render d true e)
+    (wb_norm_of_ok g _ (ok_render g (compat_of_bool g hg) hpt d e hcw.1 hcw.2))
+  cases hp : parse g (render d true e).print with
+  | none => rw [hp] at h1; simp at h1
+  | some t =>
+    rw [hp] at h1
+    simp only [Option.map_some, Option.some.injEq] at h1 ⊢
+    rw [h1, evalG_render env d e hcw.1]
+    exact (build_bool_eval env u e hu hn hb).1
+
+/-- the same for numeric trees (value, NULL included) -/
+theorem api_tree_value_num (d : Dialect) (g : Grammar) (hg : coreCompat g = true)
+    (hpt : prefixNoTern g) (env : String → Val) (u : U) (e : SaExpr)
+    (hu : NumU u = true) (hb : build u = some e) :
+    (parse g (render d true e).print).map (fun t => (evalG (stdI env) t).scalar)
+      = some (evalNumU env u) := by
+  have hcw := build_core_WG u e (Or.inl hu) hb
+  have h1 := backend_value_of_text g (stdI env) (stdI_assoc env) (render d true e)
+    (wb_norm_of_ok g _ (ok_render g (compat_of_bool g hg) hpt d e hcw.1 hcw.2))
+  cases hp : parse g (render d true e).print with
+  | none => rw [hp] at h1; simp at h1
+  | some t =>
+    rw [hp] at h1
+    simp only [Option.map_some, Option.some.injEq] at h1 ⊢
+    rw [h1, evalG_render env d e hcw.1]
+    exact build_num_eval env u e hu hb
+
+theorem api_tree_value_bool_sqlite (env : String → Val) (u : U) (e : SaExpr)
+    (hu : BoolU u = true) (hn : noIsGen u = true) (hb : build u = some e) :
+    (parse sqlite (render .sqlite true e).print).map (fun t => truth (evalG (stdI env) t).scalar)
+      = some (evalBoolU env u) :=
+  api_tree_value_bool .sqlite sqlite coreCompat_sqlite prefixNoTern_sqlite env u e hu hn hb
+
+/-- non-vacuity: a tree of the fragment with nesting, flattening, negation and `IS NULL` -/
+example : BoolU (.not_ (.and_ [.bin .eq (.col "a" .int) (.li 1),
+      .or_ [.bin .lt (.col "b" .int) (.bin .add (.col "c" .int) (.bin .add (.col "d" .num) (.li 2))),
+            .not_ (.bin .is_ (.neg (.col "a" .int)) .null)],
+      .and_ [.bin .ge (.bin .mod (.col "a" .int) (.li 3)) (.li 0)]])) = true := by
+  decide
 
 /-- the constructors establish the hypothesis `WG` (and stay in the fragment):
     `BinaryExpression.__init__`, `UnaryExpression.__init__`, `_construct_for_list` -/
